@@ -248,6 +248,8 @@ class StubSim(mosaik_api_v3.Simulator):
                         continue
                     if (ll is None or k < ll) and h01(b, "eo", eid, a) < beh.get("p_out", 1.0):
                         data.setdefault(eid, {})[a] = f"{self.sid}.{eid}.{a}@{time}#{k}{self.idig}"
+                        if beh.get("p_none") and h01(b, "none", eid, a) < beh["p_none"]:
+                            data[eid][a] = None      # a pure event: present, without payload
         if beh.get("pers_offset") and data:
             data["time"] = time + beh["pers_offset"]
             return data
